@@ -6,6 +6,7 @@ From HV Require Export PropsRingConc.
 From HV Require Export PropsInbox.
 From HV Require Export PropsInboxRing.
 From HV Require Export PropsProc.
+From HV Require Export PropsActor.
 From HV Require Export PropsWire.
 From HV Require Export PropsCluster.
 From HV Require Export PropsEvents.
